@@ -170,6 +170,44 @@ fn check_interleaved(ctx: &Ctx, s: &str, pieces: &[&str], st: &mut Stats) {
     }
 }
 
+/// line_col through the lexer for a long text: every span that starts or ends in the last three lines.
+fn check_long_lexer_level(ctx: &Ctx, s: &str, st: &mut Stats) {
+    use lrlex::{DefaultLexerTypes, LRNonStreamingLexerDef, LexerDef};
+    use lrpar::NonStreamingLexer;
+    let case = || json!({"text": s, "level": "lexer"});
+    let ld = LRNonStreamingLexerDef::<DefaultLexerTypes<u32>>::from_str("%%\n[aé] 'A'\n[\\n\\r] ;\n").unwrap();
+    let lexer = ld.lexer(s);
+    let b = boundaries(s);
+    let tail_start = {
+        let mut nl = 0;
+        let mut at = 0;
+        for (i, c) in s.char_indices().rev() {
+            if c == '\n' {
+                nl += 1;
+                if nl == 4 {
+                    at = i + 1;
+                    break;
+                }
+            }
+        }
+        at
+    };
+    for &a in b.iter().filter(|x| **x >= tail_start) {
+        for &e in b.iter().filter(|x| **x >= a) {
+            st.span_checks += 1;
+            match catch_unwind(AssertUnwindSafe(|| lexer.line_col(cfgrammar::Span::new(a, e)))) {
+                Err(err) => ctx.violation("c19-lexer-panic", &format!("line_col(({}, {})) of a {}-byte text panicked: {}", a, e, s.len(), panic_msg(&err)), case()),
+                Ok(((l1, c1), (l2, c2))) => {
+                    let ok = l1 == ref_line(s, a) && ref_cols(s, a).contains(&c1) && l2 == ref_line(s, e) && ref_cols(s, e).contains(&c2);
+                    if !ok {
+                        ctx.violation("c19-line_col", &format!("line_col(({}, {})) of \"{}\" = {:?}", a, e, esc(s), ((l1, c1), (l2, c2))), case());
+                    }
+                }
+            }
+        }
+    }
+}
+
 fn check_cache(ctx: &Ctx, s: &str, pieces: &[&str], st: &mut Stats, full: bool) {
     if pieces.iter().filter(|p| !p.is_empty()).count() >= 2 {
         check_interleaved(ctx, s, pieces, st);
@@ -223,12 +261,10 @@ fn check_cache(ctx: &Ctx, s: &str, pieces: &[&str], st: &mut Stats, full: bool) 
             ctx.violation("c19-beyond-panic", &format!("offset {} beyond the text \"{}\": panic", off, esc(s)), case());
         }
     }
-    if !full {
-        // other chunkings: spans are checked on the single-piece cache; here only that the
-        // extents agree with it on every span (cheap differential)
-    }
-    for (i, &a) in b.iter().enumerate() {
-        for &e in &b[i..] {
+    // long texts (`full` = false): spans among the first three and the last twelve boundaries
+    let bs: Vec<usize> = if full || b.len() <= 15 { b.clone() } else { b[..3].iter().chain(b[b.len() - 12..].iter()).cloned().collect() };
+    for (i, &a) in bs.iter().enumerate() {
+        for &e in &bs[i..] {
             st.span_checks += 1;
             let exts = ref_extents(s, a, e);
             if exts.len() > 1 {
@@ -358,6 +394,45 @@ pub fn run(ctx: Ctx) -> i32 {
             st
         })
         .reduce(Stats::default, |a, b| a.merge(b));
+    // Many lines: texts of 1 .. 70 lines (a size-dependent strategy - say, another search above some
+    // number of lines - must agree with the naive reference on both sides of its threshold). Line
+    // body "", "a" or "é", line ends LF or CR LF, last line with or without a terminator; fed whole
+    // and in two pieces cut at every 7th character boundary; every offset, and through the lexer every
+    // span that starts or ends within the last three lines.
+    let mut longs: Vec<String> = vec![];
+    for lines in 1..=70usize {
+        for body in ["", "a", "é"] {
+            for eol in ["\n", "\r\n"] {
+                for terminated in [true, false] {
+                    let mut t = String::new();
+                    for k in 0..lines {
+                        t.push_str(body);
+                        if k + 1 < lines || terminated {
+                            t.push_str(eol);
+                        }
+                    }
+                    longs.push(t);
+                }
+            }
+        }
+    }
+    let long_stats = longs
+        .par_iter()
+        .map(|s| {
+            let mut st = Stats::default();
+            st.strings = 1;
+            check_cache(&ctx, s, &[s.as_str()], &mut st, false);
+            let b = boundaries(s);
+            for cut in b.iter().step_by(7) {
+                st.chunkings += 1;
+                check_cache(&ctx, s, &[&s[..*cut], &s[*cut..]], &mut st, false);
+            }
+            check_long_lexer_level(&ctx, s, &mut st);
+            st
+        })
+        .reduce(Stats::default, |a, b| a.merge(b));
+    ctx.set("many_line_texts", longs.len() as u64);
+    let stats = stats.merge(long_stats);
     if stats.spans_ending_on_line_start == 0 || stats.crlf_offsets == 0 || stats.pp_checks == 0 {
         machinery("vacuous exploration (C19)");
     }
